@@ -79,11 +79,42 @@ def _capture_graph(c):
         tracer.optimize = orig
     if len(graphs) != 1:
         return ("nograph", len(graphs), r)
+    import einx._src.tracer as tracer_mod
+    g0 = graphs[0]
+    if not isinstance(g0, tracer_mod.Graph) and irser.fn_name(g0) is not None:
+        # the whole call was inlined to the bare backend function (op = np.add): the same as applying it to the inputs as they are
+        return ("term", ["other", irser.s_str(irser.fn_name(g0)), [["in", k, [int(x) for x in np.shape(a)]] for k, a in enumerate(c.arrays)],
+                         [irser.s_str("kw:")], [int(l.size) for l in gencalls.leaves(c.outs[0])]], r)
     try:
         ts = irser.ser_term(graphs[0])
         return ("term", ts[0], r) if len(ts) == 1 else ("unsupported", "several outputs", r)
     except irser.Unsupported as e:
         return ("unsupported", str(e), r)
+
+
+def gen_elementwise_core(rng, n):
+    """two-operand element-wise calls whose expressions only nest flattened axes, every input axis being an output axis and
+    vice versa: the sub-family for which Model/Lower.v models the alignment of the inputs (Proofs/LowerProofs.v: lower_align_correct)"""
+    out = []
+    g = gencalls.G(rng)
+    while len(out) < n:
+        axes = g.pick_axes(rng.randint(1, 4), sizes=[2, 3, 4, 5], maxprod=2000)
+        if any(a.size == 1 for a in axes):
+            continue
+        subs = [[a for a in axes if rng.random() < 0.7] for _ in range(2)]
+        missing = [a for a in axes if all(a.name not in [x.name for x in sub] for sub in subs)]
+        subs[rng.randrange(2)] += missing
+        if any(not sub for sub in subs):
+            continue
+        ins = [g.arrange(g.perm(sub), units=0.0, flat=0.4) for sub in subs]
+        dout = g.arrange(g.perm(axes), units=0.0, flat=0.4)
+        if any(isinstance(d, gencalls.Fl) and not d.leaves() for t in ins + [dout] for d in t):
+            continue
+        op = rng.choice(["add", "multiply", "subtract", "maximum", "minimum"])
+        c = gencalls.Call("elementwise", op, ins, [dout], [gencalls.int_data(rng, gencalls.shape_of(t)) for t in ins])
+        c.describe(rng)
+        out.append(c)
+    return out
 
 
 def run_lowering(ctx):
@@ -110,6 +141,28 @@ def run_lowering(ctx):
         else:
             ctx.tie_breaks.append({"correspondence": "Model/Lower.v: the graph einx built for this rearrangement is not equivalent to the model's "
                                                      "reshape-transpose-reshape term (verdict: in_scope, equivalent, wf_model, wf_graph, sizes)",
+                                   "call": c.record(), "verdict": r})
+        ctx.distinct.add("lower|" + c.desc)
+    # element-wise calls: the whole traced graph against aligned inputs + broadcasting operation + final reshape
+    ecases = gen_elementwise_core(ctx.rng, 150 if ctx.tier == "quick" else 5000)
+    ecaps = common.pmap(_capture_graph, ecases)
+    lines, owners = [], []
+    stats.update({"elementwise_calls": len(ecases), "elementwise_graph_equals_model": 0})
+    for c, cap in zip(ecases, ecaps):
+        if cap[0] == "term":
+            names = gencalls.Names()
+            lines.append(sx(["lower_elementwise", [irser.s_str(c.op), [gencalls.w_dims(t, names) for t in c.ins], gencalls.w_dims(c.outs[0], names), cap[1]]]))
+            owners.append(c)
+        elif cap[0] == "nograph" and cap[1] == 0:
+            stats["served_from_cache_no_trace"] = stats.get("served_from_cache_no_trace", 0) + 1
+        else:
+            ctx.tie_breaks.append({"correspondence": "lowering model vs traced graph: graph not captured as a term", "call": c.record(), "detail": str(cap[:2])})
+    for c, r in zip(owners, ctx.model.batch(lines)):
+        if isinstance(r, list) and r[0] == "lower" and r[1:5] == ["T", "T", "T", "T"]:
+            stats["elementwise_graph_equals_model"] += 1
+        else:
+            ctx.tie_breaks.append({"correspondence": "Model/Lower.v: the graph einx built for this element-wise call is not equivalent to the model's term "
+                                                     "(aligned inputs, broadcasting operation, reshape; verdict: in_scope, equivalent, wf_model, wf_graph, sizes)",
                                    "call": c.record(), "verdict": r})
         ctx.distinct.add("lower|" + c.desc)
     return stats
